@@ -1,4 +1,688 @@
 package main
 
-func mainHostile(in, out string, nrand int, seed uint64, workers, nchk, ninj int) {}
-func mainChild(in, out string, nrand int, seed uint64, from, to, nchk, ninj int)  {}
+// Hostile input (C15).  The parent (-mode hostile) splits the case list over child processes (-mode child); each
+// child runs under an address-space cap, writes a marker before every stream it reads and the events of a case
+// only when the case is complete, so that a process abort (out of memory, fatal runtime error) is attributed to
+// exactly one case and reported as a "crash" event.  A child that has seen a large allocation exits ("recycle")
+// so that the next cases start from a fresh heap.
+//
+// For every case and every reader configuration the stream is read to the end through the shapes whole, one byte
+// per Read, chunked Reads, injected I/O errors, and gzip-wrapped (pcap / pcapng).  Shapes with the identical
+// observation are reported as one group (run-length encoding only); NgReader.tla decides.
+
+import (
+	"bufio"
+	"bytes"
+	"compress/gzip"
+	"encoding/json"
+	"errors"
+	"fmt"
+	"io"
+	"os"
+	"os/exec"
+	"regexp"
+	"runtime"
+	"strconv"
+	"strings"
+	"sync"
+	"syscall"
+	"time"
+
+	"github.com/gopacket/gopacket"
+	"github.com/gopacket/gopacket/pcapgo"
+	"verif/harness/vh"
+)
+
+type baseT struct {
+	ID     int             `json:"id"`
+	Scen   *Scen           `json:"scen"`
+	Size   int             `json:"size"`
+	Fields [][]interface{} `json:"fields"` // [name, off, width]
+	file   []byte
+}
+
+type caseT struct {
+	Base  int    `json:"base"`
+	Loc   string `json:"loc"`
+	Cls   string `json:"cls"`
+	Off   int    `json:"off"`
+	Bytes []int  `json:"bytes"`
+	Src   string `json:"src"`
+	file  []byte
+}
+
+type plan struct {
+	bases  map[int]*baseT
+	order  []int
+	cases  []caseT
+	chunks [][]int
+}
+
+func loadPlan(path string) *plan {
+	p := &plan{bases: map[int]*baseT{}}
+	fh, err := os.Open(path)
+	if err != nil {
+		vh.Fatal(err)
+	}
+	defer fh.Close()
+	rd := bufio.NewScanner(fh)
+	rd.Buffer(make([]byte, 1<<20), 1<<24)
+	for rd.Scan() {
+		line := rd.Text()
+		switch {
+		case strings.HasPrefix(line, "BASE "):
+			b := &baseT{}
+			if err := json.Unmarshal([]byte(line[5:]), b); err != nil {
+				vh.Fatal("bad BASE line:", err)
+			}
+			b.Scen.normalize()
+			bl := build(b.Scen, 0)
+			if bl.err != nil {
+				vh.Fatal("cannot build base", b.ID, bl.err)
+			}
+			b.file = bl.file
+			p.bases[b.ID] = b
+			p.order = append(p.order, b.ID)
+		case strings.HasPrefix(line, "CASE "):
+			var c caseT
+			if err := json.Unmarshal([]byte(line[5:]), &c); err != nil {
+				vh.Fatal("bad CASE line:", err)
+			}
+			c.Src = "tlc"
+			p.cases = append(p.cases, c)
+		case strings.HasPrefix(line, "CHK "):
+			var c struct {
+				Sizes []int `json:"sizes"`
+			}
+			if err := json.Unmarshal([]byte(line[4:]), &c); err != nil {
+				vh.Fatal("bad CHK line:", err)
+			}
+			p.chunks = append(p.chunks, c.Sizes)
+		}
+	}
+	return p
+}
+
+// fieldAt names the field of the layout map that contains offset off ("data" when none does)
+func (b *baseT) fieldAt(off int) string {
+	for _, f := range b.Fields {
+		o, w := int(f[1].(float64)), int(f[2].(float64))
+		if off >= o && off < o+w {
+			return f[0].(string)
+		}
+	}
+	return "data"
+}
+
+// randomCase derives case number j (beyond the TLC cases) from the seed alone, so that every child agrees on it.
+func (p *plan) randomCase(seed uint64, j int) caseT {
+	r := vh.NewRand(seed*1000003 + uint64(j)*7919 + 11)
+	b := p.bases[p.order[r.Intn(len(p.order))]]
+	f := append([]byte(nil), b.file...)
+	c := caseT{Base: b.ID, Src: "rand", Cls: "random"}
+	interesting := []uint32{0, 1, 2, 3, 4, 5, 7, 8, 11, 12, 15, 16, 20, 24, 27, 28, 31, 32, 255, 256, 1023, 1024, 1025, 4095, 4096, 4097, 65535, 65536,
+		0x7fffffff, 0x80000000, 0xfffffff0, 0xfffffffc, 0xffffffff}
+	var locs []string
+	put := func(off, w int, v uint32) {
+		for k := 0; k < w && off+k < len(f); k++ {
+			sh := uint(8 * k)
+			if b.Scen.Fmt == "snoop" {
+				sh = uint(8 * (w - 1 - k))
+			}
+			f[off+k] = byte(v >> sh)
+		}
+	}
+	nm := 1 + r.Intn(3)
+	for m := 0; m < nm; m++ {
+		switch r.Intn(6) {
+		case 0, 1, 2: // a field of the layout map gets a boundary or random value
+			fd := b.Fields[r.Intn(len(b.Fields))]
+			off, w := int(fd[1].(float64)), int(fd[2].(float64))
+			v := interesting[r.Intn(len(interesting))]
+			if r.Intn(4) == 0 {
+				v = uint32(r.U64())
+				if r.Intn(2) == 0 {
+					v &= 0xffff // random but modest: most of the 32-bit space is covered by the boundary values
+				}
+			}
+			put(off, w, v)
+			locs = append(locs, fd[0].(string))
+		case 3: // one byte anywhere
+			off := r.Intn(len(f))
+			f[off] = []byte{0, 0xff, f[off] + 1, f[off] - 1, byte(r.U64())}[r.Intn(5)]
+			locs = append(locs, b.fieldAt(off))
+		case 4: // truncation
+			cut := r.Intn(len(f) + 1)
+			f = f[:cut]
+			locs = append(locs, "cut")
+			if len(f) == 0 {
+				f = []byte{}
+			}
+		case 5: // a run of random bytes
+			if len(f) > 0 {
+				off := r.Intn(len(f))
+				n := 1 + r.Intn(12)
+				for k := 0; k < n && off+k < len(f); k++ {
+					f[off+k] = byte(r.U64())
+				}
+				locs = append(locs, b.fieldAt(off)+"~")
+			}
+		}
+		if len(f) == 0 {
+			break
+		}
+	}
+	c.Loc = strings.Join(locs, "+")
+	c.file = f
+	return c
+}
+
+func (p *plan) caseAt(i int, seed uint64) caseT {
+	if i < len(p.cases) {
+		c := p.cases[i]
+		b := p.bases[c.Base]
+		f := append([]byte(nil), b.file...)
+		for k, v := range c.Bytes {
+			if c.Off+k < len(f) {
+				f[c.Off+k] = byte(v)
+			}
+		}
+		c.file = f
+		return c
+	}
+	return p.randomCase(seed, i-len(p.cases))
+}
+
+// ---------------------------------------------------------------------------------------------------------------
+// stream shapes
+
+var errInjected = errors.New("injected I/O error")
+
+type shaped struct {
+	b     []byte
+	pos   int
+	sizes []int // nil: unlimited
+	k     int
+	inj   int // -1: none; otherwise fail once pos reaches inj
+	fired bool
+}
+
+func (s *shaped) Read(p []byte) (int, error) {
+	if s.inj >= 0 && s.pos >= s.inj {
+		s.fired = true
+		return 0, errInjected
+	}
+	if s.pos >= len(s.b) {
+		return 0, io.EOF
+	}
+	n := len(p)
+	if s.sizes != nil {
+		if m := s.sizes[s.k%len(s.sizes)]; m < n {
+			n = m
+		}
+		s.k++
+	}
+	if rem := len(s.b) - s.pos; rem < n {
+		n = rem
+	}
+	if s.inj >= 0 && s.pos+n > s.inj {
+		n = s.inj - s.pos
+	}
+	copy(p, s.b[s.pos:s.pos+n])
+	s.pos += n
+	return n, nil
+}
+
+type shapeT struct {
+	kind  string // whole one chk inj gz gzone
+	sizes []int
+	inj   int
+}
+
+// ---------------------------------------------------------------------------------------------------------------
+// one run = one stream read to its end with one reader configuration
+
+type callT struct {
+	cap, length, dl uint64
+	dg              string
+}
+
+type obsT struct {
+	calls  []callT
+	end    string
+	fired  bool
+	makb   int
+	site   string
+	snapkb int
+}
+
+func (o *obsT) key() string {
+	var sb strings.Builder
+	for _, c := range o.calls {
+		fmt.Fprintf(&sb, "%d,%d,%d,%s;", c.cap, c.length, c.dl, c.dg)
+	}
+	fmt.Fprintf(&sb, "|%s|%v|%s", o.end, o.fired, o.site)
+	return sb.String()
+}
+
+var memA, memB runtime.MemStats
+
+func allocKB(f func()) int {
+	runtime.ReadMemStats(&memA)
+	f()
+	runtime.ReadMemStats(&memB)
+	return int((memB.TotalAlloc - memA.TotalAlloc + 1023) / 1024)
+}
+
+var marker *os.File
+var recycle bool
+
+func mark(ci int, rd string, sh string, snapkb int) {
+	if marker != nil {
+		s := fmt.Sprintf("%d %s %s %d", ci, rd, sh, snapkb)
+		marker.WriteAt([]byte(fmt.Sprintf("%-120s\n", s)), 0)
+	}
+}
+
+func kb(n uint64) int { return int((n + 1023) / 1024) }
+
+func (rd *reader) snapKB() int {
+	switch {
+	case rd.p != nil:
+		return kb(uint64(rd.p.Snaplen()))
+	case rd.ng != nil:
+		m := uint32(0)
+		for i := 0; i < rd.ng.NInterfaces(); i++ {
+			if f, err := rd.ng.Interface(i); err == nil && f.SnapLength > m {
+				m = f.SnapLength
+			}
+		}
+		return kb(uint64(m))
+	}
+	return 0
+}
+
+const maxCalls = 64
+
+func errClass(err error) string {
+	if errors.Is(err, errInjected) || strings.Contains(err.Error(), errInjected.Error()) {
+		return "inj"
+	}
+	return ekind(err)
+}
+
+// runStream reads the stream src with reader configuration rdm ("copy", "zero", optionally "+mixed").
+// perCall: measure the allocation of every call (otherwise of the whole run).
+func runStream(ci int, format, rdm, shName string, src io.Reader, perCall bool) (o obsT) {
+	zero := strings.HasPrefix(rdm, "zero")
+	opt := pcapgo.NgReaderOptions{}
+	if strings.HasSuffix(rdm, "+mixed") {
+		opt = pcapgo.NgReaderOptions{WantMixedLinkType: true, SkipUnknownVersion: true,
+			SectionEndCallback: func([]pcapgo.NgInterface, pcapgo.NgSectionInfo) {}, StatisticsCallback: func(int, pcapgo.NgInterfaceStatistics) {}}
+	}
+	mode := "copy"
+	if zero {
+		mode = "zero"
+	}
+	body := func() {
+		var rd reader
+		var err error
+		mark(ci, rdm, shName, 0)
+		step := func(f func()) (panicked bool) {
+			var msg, site string
+			g := func() { msg, site, panicked = vh.Guard(f) }
+			if perCall {
+				if a := allocKB(g); a > o.makb {
+					o.makb = a
+				}
+			} else {
+				g()
+			}
+			if panicked {
+				o.end = "panic"
+				o.site = vh.SiteSig(os.Getenv("VERIF_REPO"), site) + " :: " + trim(msg, 80)
+			}
+			return
+		}
+		if step(func() { rd, err = open(format, src, opt) }) {
+			return
+		}
+		if err != nil {
+			o.end = errClass(err)
+			return
+		}
+		for n := 0; n < maxCalls; n++ {
+			var data []byte
+			var ci2 gopacket.CaptureInfo
+			o.snapkb = rd.snapKB()
+			mark(ci, rdm, shName, o.snapkb)
+			if step(func() { data, ci2, _, err = rd.next(mode) }) {
+				return
+			}
+			if err != nil {
+				o.end = errClass(err)
+				o.snapkb = rd.snapKB()
+				return
+			}
+			o.calls = append(o.calls, callT{cap: uint64(ci2.CaptureLength), length: uint64(ci2.Length), dl: uint64(len(data)),
+				dg: dig(data, ci2.Timestamp.Unix(), ci2.Timestamp.Nanosecond(), ci2.InterfaceIndex)})
+		}
+		o.end = "none"
+	}
+	run := body
+	if !perCall {
+		run = func() { o.makb = allocKB(body) }
+	}
+	if !vh.WithTimeout(60*time.Second, run) {
+		o = obsT{end: "hang"}
+	}
+	if o.makb > 32*1024 {
+		recycle = true
+	}
+	return
+}
+
+func trim(s string, n int) string {
+	if len(s) > n {
+		return s[:n]
+	}
+	return s
+}
+
+func gz(b []byte) []byte {
+	var buf bytes.Buffer
+	w := gzip.NewWriter(&buf)
+	w.Write(b)
+	w.Close()
+	return buf.Bytes()
+}
+
+func half(v uint64) (int, int) {
+	if v > 0xffffffffffff {
+		v = 0xffffffffffff
+	}
+	return int(v >> 16), int(v & 0xffff)
+}
+
+// runCase produces the events of one case.  Returns false when the child should stop after it (recycle).
+func runCase(ci int, c *caseT, p *plan, seed uint64, nchk, ninj int) []vh.M {
+	format := p.bases[c.Base].Scen.Fmt
+	f := c.file
+	var gzf []byte
+	if format != "snoop" {
+		gzf = gz(f)
+	}
+	evs := []vh.M{{"op": "case", "cs": ci, "fmt": format, "base": c.Base, "loc": c.Loc, "cls": c.Cls, "src": c.Src,
+		"present": len(f) + len(gzf), "size": len(f)}}
+	modes := []string{"copy", "zero"}
+	if format == "ng" {
+		modes = []string{"copy", "zero", "copy+mixed", "zero+mixed"}
+	}
+	r := vh.NewRand(seed + uint64(ci)*31)
+	// shapes: whole, one, nchk chunkings chosen by the seed, injected errors around the corrupted field and spread
+	// over the file, gzip-wrapped
+	var shapes []shapeT
+	shapes = append(shapes, shapeT{kind: "whole", inj: -1}, shapeT{kind: "one", sizes: []int{1}, inj: -1})
+	for k := 0; k < nchk && len(p.chunks) > 0; k++ {
+		shapes = append(shapes, shapeT{kind: "chk", sizes: p.chunks[r.Intn(len(p.chunks))], inj: -1})
+	}
+	var pos []int
+	if ninj == 0 {
+		for q := 0; q <= len(f); q++ {
+			pos = append(pos, q)
+		}
+	} else {
+		cand := []int{0, 1, c.Off - 1, c.Off, c.Off + len(c.Bytes), len(f) - 1, len(f)}
+		for k := 0; k < ninj; k++ {
+			cand = append(cand, r.Intn(len(f)+1))
+		}
+		seen := map[int]bool{}
+		for _, q := range cand {
+			if q >= 0 && q <= len(f) && !seen[q] && len(pos) < ninj+4 {
+				seen[q] = true
+				pos = append(pos, q)
+			}
+		}
+	}
+	for _, q := range pos {
+		sh := shapeT{kind: "inj", inj: q}
+		if q%2 == 1 {
+			sh.sizes = []int{3, 1}
+		}
+		shapes = append(shapes, sh)
+	}
+	if gzf != nil && (ci%2 == 0 || c.Loc == "none") {
+		shapes = append(shapes, shapeT{kind: "gz", inj: -1}, shapeT{kind: "gzone", sizes: []int{1}, inj: -1})
+	}
+	for _, m := range modes {
+		type grp struct {
+			o      obsT
+			shapes map[string]int
+			order  []string
+		}
+		var groups []*grp
+		idx := map[string]*grp{}
+		snapkb := 0
+		for si, sh := range shapes {
+			data := f
+			if sh.kind == "gz" || sh.kind == "gzone" {
+				data = gzf
+			}
+			src := &shaped{b: data, sizes: sh.sizes, inj: sh.inj}
+			var rdr io.Reader = src
+			if sh.kind == "whole" || sh.kind == "gz" {
+				rdr = bytes.NewReader(data)
+			}
+			o := runStream(ci, format, m, sh.kind, rdr, sh.kind == "whole" || sh.kind == "gz")
+			o.fired = src.fired
+			if o.snapkb > snapkb {
+				snapkb = o.snapkb
+			}
+			k := o.key()
+			g := idx[k]
+			if g == nil {
+				g = &grp{o: o, shapes: map[string]int{}}
+				idx[k] = g
+				groups = append(groups, g)
+			}
+			if o.makb > g.o.makb {
+				g.o.makb = o.makb
+			}
+			if g.shapes[sh.kind] == 0 {
+				g.order = append(g.order, sh.kind)
+			}
+			g.shapes[sh.kind]++
+			if si == 0 && (recycle || o.end == "panic" || o.end == "hang") {
+				break // a large allocation, panic or hang on the plain stream: the other shapes add nothing
+			}
+			if o.end == "hang" {
+				break
+			}
+		}
+		var gl []vh.M
+		for _, g := range groups {
+			var shl []vh.M
+			for _, k := range g.order {
+				shl = append(shl, vh.M{"k": k, "n": g.shapes[k]})
+			}
+			calls := [][]interface{}{}
+			for _, cl := range g.o.calls {
+				ch, cl0 := half(cl.cap)
+				lh, ll := half(cl.length)
+				dh, dl := half(cl.dl)
+				calls = append(calls, []interface{}{ch, cl0, lh, ll, dh, dl, cl.dg})
+			}
+			gl = append(gl, vh.M{"shapes": shl, "calls": calls, "end": g.o.end, "fired": g.o.fired, "makb": g.o.makb, "site": g.o.site})
+		}
+		evs = append(evs, vh.M{"op": "mode", "cs": ci, "rd": m, "snapkb": snapkb, "groups": gl})
+		if recycle {
+			break
+		}
+		hang := false
+		for _, g := range groups {
+			if g.o.end == "hang" {
+				hang = true
+			}
+		}
+		if hang {
+			recycle = true // the stuck goroutine keeps its reader: continue in a fresh process
+			break
+		}
+	}
+	return evs
+}
+
+// ---------------------------------------------------------------------------------------------------------------
+// child and parent
+
+const asCapMiB = 3072 // address-space cap of a child
+
+func mainChild(in, out string, nrand int, seed uint64, from, to, nchk, ninj int) {
+	lim := syscall.Rlimit{Cur: asCapMiB << 20, Max: asCapMiB << 20}
+	syscall.Setrlimit(syscall.RLIMIT_AS, &lim)
+	runtime.GOMAXPROCS(2)
+	p := loadPlan(in)
+	var err error
+	if marker, err = os.OpenFile(out+".marker", os.O_CREATE|os.O_RDWR|os.O_TRUNC, 0o644); err != nil {
+		vh.Fatal(err)
+	}
+	tr := vh.NewTrace(out)
+	for i := from; i < to; i++ {
+		c := p.caseAt(i, seed)
+		evs := runCase(i+1, &c, p, seed, nchk, ninj)
+		tr.EmitBlock(evs)
+		tr.Flush()
+		if recycle && i+1 < to {
+			tr.Close()
+			fmt.Printf("{\"next\":%d}\n", i+1)
+			os.Exit(4)
+		}
+	}
+	tr.Close()
+	fmt.Printf("{\"next\":%d}\n", to)
+}
+
+var oomRe = regexp.MustCompile(`cannot allocate (\d+)-byte block`)
+
+func mainHostile(in, out string, nrand int, seed uint64, workers, nchk, ninj int) {
+	p := loadPlan(in)
+	total := len(p.cases) + nrand
+	self, _ := os.Executable()
+	if workers < 1 {
+		workers = 1
+	}
+	per := (total + workers - 1) / workers
+	type part struct{ files []string }
+	parts := make([]part, workers)
+	crashes := make([][]vh.M, workers)
+	var wg sync.WaitGroup
+	stats := struct {
+		sync.Mutex
+		restarts, crashes, recycles int
+	}{}
+	for w := 0; w < workers; w++ {
+		wg.Add(1)
+		go func(w int) {
+			defer wg.Done()
+			from, to := w*per, (w+1)*per
+			if to > total {
+				to = total
+			}
+			seg := 0
+			for from < to {
+				seg++
+				tp := fmt.Sprintf("%s.w%d.%d", out, w, seg)
+				cmd := exec.Command(self, "-mode", "child", "-scenarios", in, "-trace", tp, "-seed", strconv.FormatUint(seed, 10),
+					"-from", strconv.Itoa(from), "-to", strconv.Itoa(to), "-chunkings", strconv.Itoa(nchk), "-inject", strconv.Itoa(ninj), "-rand", strconv.Itoa(nrand))
+				var stderr, stdout bytes.Buffer
+				cmd.Stderr = &stderr
+				cmd.Stdout = &stdout
+				err := cmd.Run()
+				parts[w].files = append(parts[w].files, tp)
+				code := 0
+				if err != nil {
+					code = -1
+					if ee, ok := err.(*exec.ExitError); ok {
+						code = ee.ExitCode()
+					}
+				}
+				var nx struct {
+					Next int `json:"next"`
+				}
+				if (code == 0 || code == 4) && json.Unmarshal(bytes.TrimSpace(stdout.Bytes()), &nx) == nil && nx.Next > from {
+					if code == 4 {
+						stats.Lock()
+						stats.recycles++
+						stats.Unlock()
+					}
+					from = nx.Next
+					continue
+				}
+				// abnormal end: attribute it to the case named by the marker
+				mk, _ := os.ReadFile(tp + ".marker")
+				fs := strings.Fields(string(mk))
+				if len(fs) < 4 {
+					vh.Fatal("child died without a marker:", code, trim(stderr.String(), 2000))
+				}
+				ci, _ := strconv.Atoi(fs[0])
+				snapkb, _ := strconv.Atoi(fs[3])
+				msg := stderr.String()
+				oom := false
+				reqkb := 0
+				if m := oomRe.FindStringSubmatch(msg); m != nil {
+					oom = true
+					n, _ := strconv.ParseUint(m[1], 10, 64)
+					reqkb = kb(n)
+				}
+				first := msg
+				if i := strings.Index(first, "\n\n"); i > 0 {
+					first = first[:i]
+				}
+				site := vh.SiteSig(os.Getenv("VERIF_REPO"), vh.SiteFromStack(msg))
+				c := p.caseAt(ci-1, seed)
+				format := p.bases[c.Base].Scen.Fmt
+				gzl := 0
+				if format != "snoop" {
+					gzl = len(gz(c.file))
+				}
+				crashes[w] = append(crashes[w],
+					vh.M{"op": "case", "cs": ci, "fmt": format, "base": c.Base, "loc": c.Loc, "cls": c.Cls, "src": c.Src, "present": len(c.file) + gzl, "size": len(c.file)},
+					vh.M{"op": "crash", "cs": ci, "rd": fs[1], "shape": fs[2], "snapkb": snapkb, "oom": oom, "reqkb": reqkb, "code": code,
+						"msg": trim(strings.ReplaceAll(first, "\n", " / "), 300), "site": site})
+				stats.Lock()
+				stats.crashes++
+				stats.Unlock()
+				if ci <= from { // no progress possible
+					vh.Fatal("child makes no progress at case", ci, trim(msg, 2000))
+				}
+				from = ci // cases are numbered from 1: continue with the case after the crashed one
+			}
+		}(w)
+	}
+	wg.Wait()
+	// merge: the parts in order, then the crash events (each a complete case of its own)
+	tr := vh.NewTrace(out)
+	for w := range parts {
+		for _, fp := range parts[w].files {
+			fh, err := os.Open(fp)
+			if err != nil {
+				continue
+			}
+			sc := bufio.NewScanner(fh)
+			sc.Buffer(make([]byte, 1<<20), 1<<26)
+			for sc.Scan() {
+				var ev vh.M
+				if json.Unmarshal(sc.Bytes(), &ev) == nil {
+					tr.Emit(ev)
+				}
+			}
+			fh.Close()
+			os.Remove(fp)
+			os.Remove(fp + ".marker")
+		}
+		tr.EmitBlock(crashes[w])
+	}
+	tr.Close()
+	o, _ := json.Marshal(vh.M{"cases": total, "tlc_cases": len(p.cases), "events": tr.N, "crashes": stats.crashes, "recycles": stats.recycles, "chunkings": len(p.chunks)})
+	os.Stdout.Write(append(o, '\n'))
+}
